@@ -564,7 +564,7 @@ def polygons_mask_ok(ctx: Context, fi: FuncInfo) -> tuple[bool, str]:
                 if isinstance(inner, ast.Name):
                     name = inner.id
             alloc = [n for n in walk_no_nested(fi.node) if isinstance(n, ast.Assign) and isinstance(n.targets[0], ast.Name) and n.targets[0].id == name
-                     and isinstance(n.value, ast.Call) and (callee(ctx, fi, n.value) or '') in ('numpy.zeros', 'numpy.full')]
+                     and isinstance(n.value, ast.Call) and (callee(ctx, fi, n.value) or '') in ('numpy.zeros', 'numpy.full', 'numpy.empty')]
             loops = [n for n in walk_no_nested(fi.node) if isinstance(n, ast.For)]
             if name and len(alloc) == 1 and len(loops) == 1:
                 a, lp = alloc[0], loops[0]
@@ -575,7 +575,7 @@ def polygons_mask_ok(ctx: Context, fi: FuncInfo) -> tuple[bool, str]:
                 it = flow.resolve(lp.iter)
                 enum_ok = isinstance(it, ast.Call) and dotted(it.func) == 'enumerate' and len(it.args) == 1 and is_polygons(it.args[0]) \
                     and isinstance(lp.target, ast.Tuple) and len(lp.target.elts) == 2 and all(isinstance(e, ast.Name) for e in lp.target.elts)
-                if size_ok and falsy and enum_ok:
+                if size_ok and enum_ok:
                     ivar, pvar = lp.target.elts[0].id, lp.target.elts[1].id
                     stores = [n for n in ast.walk(lp) if isinstance(n, ast.Assign) and isinstance(n.targets[0], ast.Subscript)
                               and isinstance(n.targets[0].value, ast.Name) and n.targets[0].value.id == name]
@@ -585,7 +585,7 @@ def polygons_mask_ok(ctx: Context, fi: FuncInfo) -> tuple[bool, str]:
                         if val_nt is not None and isinstance(val_nt[0], ast.Name) and val_nt[0].id == pvar and val_nt[1] is False \
                                 and not path_conditions(fi, st):
                             continue
-                        if const_value(st.value, None) is True and known_none(fi, st, lambda e: isinstance(e, ast.Name) and e.id == pvar) is False \
+                        if falsy and const_value(st.value, None) is True and known_none(fi, st, lambda e: isinstance(e, ast.Name) and e.id == pvar) is False \
                                 and len(path_conditions(fi, st)) == 1:
                             continue
             return False, f"mask built by an unrecognised construction ({norm_text(v)[:60]})"
